@@ -2,6 +2,8 @@
 
 package vaxis
 
+import "git.sr.ht/~rockorager/vaxis/ansi"
+
 // VerifCaps reports the detected capability flags and the few run-time values
 // that start-up and shutdown format into escape sequences.
 func (vx *Vaxis) VerifCaps() (caps map[string]bool, kittyFlags int, userCursorStyle int, appID string) {
@@ -40,3 +42,7 @@ type verifSignal struct{}
 
 func (verifSignal) String() string { return "verif-kill" }
 func (verifSignal) Signal()        {}
+
+// VerifInjectSequence hands a sequence to the input goroutine through the
+// parser's channel.
+func (vx *Vaxis) VerifInjectSequence(seq ansi.Sequence) { vx.parser.VerifInject(seq) }
